@@ -790,7 +790,12 @@ bool DTDScanner::scanAttValue(const   XMLCh* const        attrName
             if (nextCh == quoteCh)
             {
                 if (curReader == fReaderMgr->getCurrentReaderNum())
+                {
+                    // a leading surrogate must not be the last character of the value
+                    if (gotLeadingSurrogate)
+                        fScanner->emitError(XMLErrs::Expected2ndSurrogateChar);
                     return true;
+                }
 
                 // Watch for spillover into a previous entity
                 if (curReader > fReaderMgr->getCurrentReaderNum())
